@@ -23,6 +23,7 @@ type nondetRec struct {
 	W    uint8
 	T    *Term // sym
 	V    int64 // choice
+	Internal bool // created by an engine model (clock, rand), not by the harness
 }
 
 type Violation struct {
@@ -177,6 +178,17 @@ func (ex *Explorer) nextFixed(name string) (uint64, bool) {
 	v := ex.fixed[ex.fixedPos].V
 	ex.fixedPos++
 	return v, true
+}
+
+// freshInternal creates a symbolic value on behalf of an engine model.
+func (ex *Explorer) freshInternal(name string, w uint8) *Term {
+	p := ex.path
+	k := p.names[name]
+	p.names[name] = k + 1
+	v := Var(fmt.Sprintf("%s#%d", name, k), w)
+	p.vars = append(p.vars, v)
+	p.nondet = append(p.nondet, nondetRec{Name: name, Kind: "sym", W: w, T: v, Internal: true})
+	return v
 }
 
 func (ex *Explorer) fresh(name string, w uint8) *Term {
@@ -402,6 +414,9 @@ func (ex *Explorer) violation(id, msg string, m Model) {
 	}
 	v := &Violation{ID: id, Msg: msg, Decisions: append([]dec(nil), ex.path.taken...), Notes: append([]string(nil), ex.path.notes...)}
 	for _, r := range ex.path.nondet {
+		if r.Internal {
+			continue
+		}
 		rv := replayVal{Name: r.Name, Kind: r.Kind}
 		if r.Kind == "sym" {
 			rv.V = m.Eval(r.T)
